@@ -682,12 +682,29 @@ def rule_g2g(ctx, py):
     ctx.floor(R, 9)
 
 
+def rule_nbr_use(ctx, tu):
+    """C15.NBR-USE -- engine code reaches the neighbour of (cell, direction) through the neighbour table (built from
+    GetNeighborIndex, which applies the boundary conditions); a cell index obtained by adding an offset to another cell
+    index ignores the periodic wrap and the reflecting faces"""
+    R = "C15.NBR-USE"
+    from .. import idx as idxmod
+    I = idxmod.Idx(tu)
+    bad = [r for r in I.subs if r["status"] == "bad" and " adds " in r.get("detail", "") and "kind cell" in r.get("detail", "")]
+    for r in bad:
+        ctx.violation(R, r["node"], r["fn"], r["text"][:80], r["detail"] + " -- the neighbour is not read from the neighbour table")
+    n = sum(1 for r in I.subs if r["status"] == "ok" and r.get("layout") and any(k[0] in ("cell", "cell?") for k in r["layout"]))
+    ctx.ok(R, None, "engine", "%d subscripts address a cell through a loop index, a parameter or a neighbour-table entry" % n,
+           "no cell index is computed by offset arithmetic")
+    ctx.floor(R, 1)
+
+
 def run(ctx):
     py, tu = ctx.py, ctx.cx
     rule_ent(ctx, py)
     rule_radix_py(ctx, py)
     rule_axis_py(ctx, py)
     rule_cx(ctx, tu)
+    rule_nbr_use(ctx, tu)
     rule_axis_table(ctx, py, tu)
     rule_g2g(ctx, py)
     ctx.assume("symmetry of the neighbour relation as a theorem and equality of grid / graph trajectories are not "
